@@ -189,23 +189,29 @@ Definition tag_ok (t : list N) : Prop := length t = 4%nat /\ Forall (fun b => b 
 (* FeatureIndex: 0 .. 0xFFFE; Required may be 0xFFFF (none) *)
 Definition ls_ok (f : langsys) : Prop := fst f < 65536 /\ Forall (fun i => i < 65535) (snd f).
 
-Fixpoint tags_inc (prev : option (list N)) (l : list (list N)) : bool :=
-  match l with
-  | [] => true
-  | t :: r => (match prev with Some p => tag_lt p t | None => true end) && tags_inc (Some t) r
-  end.
+(* the LangSys tables of a script: the default (language "") first *)
+Definition item := (list N * langsys)%type.
+Definition items_of (e : script_entry) : list item :=
+  (match e_def e with Some f => [([], f)] | None => [] end) ++ e_langs e.
 
-Definition entry_ok (e : script_entry) : Prop :=
-  tag_ok (e_tag e) /\ (match e_def e with Some f => ls_ok f | None => True end) /\
-  Forall (fun x => tag_ok (fst x) /\ ls_ok (snd x)) (e_langs e) /\
-  tags_inc None (map fst (e_langs e)) = true.
+Fixpoint work (l : list item) : N :=
+  match l with [] => 0 | x :: r => 1 + lenN (snd (snd x)) + work r end.
+
+Fixpoint total_work (es : list script_entry) : N :=
+  match es with [] => 0 | e :: r => work (items_of e) + total_work r end.
+
+
+(* hypotheses of the round trip: tags are 4 bytes, feature indices valid,
+   counts 16-bit, and the tag conversion accepts the pair *)
+Definition item_ok (script : list N) (conv_ok : list N -> list N -> bool) (x : item) : Prop :=
+  ls_ok (snd x) /\ lenN (snd (snd x)) < 65536 /\ conv_ok script (fst x) = true.
+
+Definition entry_rd_ok (conv_ok : list N -> list N -> bool) (e : script_entry) : Prop :=
+  tag_ok (e_tag e) /\ Forall (fun x : item => tag_ok (fst x)) (e_langs e) /\
+  Forall (item_ok (e_tag e) conv_ok) (items_of e).
+
 
 (* the assignments the reader must make, in order *)
 Definition entry_assignments (e : script_entry) : list ((list N * list N) * langsys) :=
   (match e_def e with Some f => [((e_tag e, []), f)] | None => [] end) ++
   map (fun x => ((e_tag e, fst x), snd x)) (e_langs e).
-
-(* the reader's work budget: one unit per LangSys plus one per feature index *)
-Definition entry_work (e : script_entry) : N :=
-  (match e_def e with Some f => 1 + lenN (snd f) | None => 0 end) +
-  fold_right (fun x acc => 1 + lenN (snd (snd x)) + acc) 0 (e_langs e).
